@@ -361,9 +361,17 @@ func lockPort2112() func() {
 	if err != nil {
 		return nil
 	}
-	if err := syscall.Flock(int(f.Fd()), syscall.LOCK_EX); err != nil {
-		f.Close()
-		return nil
+	// bounded wait: other check processes on this host may be using the port
+	deadline := time.Now().Add(10 * time.Second)
+	for {
+		if err := syscall.Flock(int(f.Fd()), syscall.LOCK_EX|syscall.LOCK_NB); err == nil {
+			break
+		}
+		if time.Now().After(deadline) {
+			f.Close()
+			return nil
+		}
+		time.Sleep(50 * time.Millisecond)
 	}
 	// is the port free at all (something else on the host may own it)?
 	if l, err := net.Listen("tcp", ":2112"); err != nil {
